@@ -33,6 +33,20 @@ def variants_uncompressed():
     return v
 
 
+def variants_palette_sweep():
+    """four palettes per palette-bearing layout that together hold every one of the 64 colour codes (MGE: in both palette kinds);
+    the pixels are noise stretches (every byte value) so that every slot is drawn"""
+    v = []
+    noisy = dict(vals="{0, 255, 27}", lens="{700, 1500}", noise="{1, 2}")
+    for k in range(4):
+        v.append(("mge-raw-rgb-pal%d" % k, base("RAW", "MGE-RAW", 32000, 160, pals="{%d}" % (64 + k), **noisy), "mgetoppm", [], {"fmt": "MGE", "w": 320, "h": 200}))
+        v.append(("mge-raw-cmp-pal%d" % k, base("RAW", "MGE-RAW", 32000, 160, pals="{%d}" % (128 + k), **noisy), "mgetoppm", [], {"fmt": "MGE", "w": 320, "h": 200}))
+        v.append(("vef-raw-0-pal%d" % k, base("RAW", "VEF", 32000, 160, veftype=0, pals="{%d}" % k, **noisy), "veftopng", [], {"fmt": "VEF", "veftype": 0, "w": 320, "h": 200}))
+        v.append(("hrs-pal%d" % k, base("RAW", "HRS", 32 * 20, 32, skip=7, pals="{%d}" % k, **noisy), "hrstoppm", ["-w", "64", "-r", "20", "-s", "7"], {"fmt": "HRS", "w": 64, "h": 20}))
+        v.append(("cm3-raw-pal%d" % k, linebase("CM3", 160, 192, ["raw"], pages="{1}", motifs="{FALSE}", pals="{%d}" % k, kinds='{"noise"}'), "cm3toppm", [], {"fmt": "CM3", "w": 320, "h": 192}))
+    return v
+
+
 def variants_compressed():
     v = []
     # escape byte 0x70 and low nibbles below 8: files the known low-nibble finding does not touch, so that everything else is compared
